@@ -81,6 +81,8 @@ def triggers(n):
         "directive_option": (["```{note}", ":nosuchoption: 1", "", f"body {n}", "```"], "myst.directive_option"),
         "directive_option_invalid": (["```{image} i.png", ":width: notalength", "```"], "myst.directive_option"),
         "directive_comments": (["```{note}", ":class: x # a comment", "", f"body {n}", "```"], "myst.directive_comments"),
+        "directive_comments_block_header": (["```{note}", "---", "class: |  # a comment after the block-scalar indicator", "  x", "---", "", f"body {n}", "```"], "myst.directive_comments"),
+        "directive_comments_own_line": (["```{note}", "---", "# a comment line", "class: x", "---", "", f"body {n}", "```"], "myst.directive_comments"),
         "directive_parse": (["```{image} i.png", "", f"content not permitted {n}", "```"], "myst.directive_parse"),
         "xref_missing_text": ([f"see [text {n}](#nope-{n}) end"], "myst.xref_missing"),
         "xref_missing_empty": ([f"see [](#void-{n}) end"], "myst.xref_missing"),
